@@ -785,6 +785,9 @@ def gen_seq_design(rnd, size=8, reset=None, step_cond=False, with_conc=True):
     arrs = []
     if rnd.random() < 0.6:
         arrs.append(('m0', 'u', 3, 4, rnd.random() < 0.6, [rnd.randrange(8) for _ in range(4)]))
+    if rnd.random() < 0.3:
+        # narrow elements: usable as `match` subjects (case selector on an array element)
+        arrs.append(('m1', rnd.choice(['u', 'bv']), 2, 4, rnd.random() < 0.6, [rnd.randrange(4) for _ in range(4)]))
     ins = [Obj(f"self.{n}", k, w, n, 'in') for n, k, w in inputs if not (reset and n == reset['sig'])]
     oo = [Obj(f"self.{o[0]}", o[1], o[2], o[0], 'out') for o in outs]
     so = [Obj(o[0], o[1], o[2], o[0], 'sig') for o in sigs]
